@@ -404,6 +404,358 @@ pub fn rename_ids(obs: &[String]) -> Vec<String> {
         .collect()
 }
 
+// ------------------------------------------------------------------ C03
+
+/// run-to-completion on the implementation's observation stream: every external event is taken
+/// right after an idle point; every idle point is preceded by an empty eventless selection; the
+/// events the harness sent are consumed in the order sent, each at most once and — unless the
+/// session ended first — exactly once (self-sent `q*` events may interleave)
+pub fn oracle_c03(c: &Case, imp: &ImplRun, rep: &mut Report) {
+    let obs = &imp.obs;
+    let mut consumed: Vec<String> = vec![];
+    let mut last_sel_empty = false;
+    let mut ints_after_ext = 0u64;
+    for (i, o) in obs.iter().enumerate() {
+        if let Some(v) = o.strip_prefix("sel:") {
+            last_sel_empty = v == ".";
+        } else if o == "idle" {
+            if !last_sel_empty {
+                rep.oracle_fail("C03:idle-with-enabled-eventless-transition", json!({"origin": c.origin, "xml": c.xml, "events": c.events, "single": c.single, "at": i}));
+            }
+        } else if let Some(h) = o.strip_prefix("ext:") {
+            if i == 0 || obs[i - 1] != "idle" {
+                rep.oracle_fail("C03:external-event-taken-mid-macrostep", json!({"origin": c.origin, "xml": c.xml, "events": c.events, "single": c.single, "at": i}));
+            }
+            let name = crate::proto::unhex(h).map(|b| String::from_utf8_lossy(&b).to_string()).unwrap_or_default();
+            consumed.push(name);
+        } else if o.starts_with("int:") {
+            ints_after_ext += 1;
+        }
+    }
+    rep.add("internal_events_processed", ints_after_ext);
+    // harness-sent events, in order
+    let mut expected: Vec<String> = c.events.clone();
+    expected.push("error.platform.cancel".to_string());
+    let seen: Vec<&String> = consumed.iter().filter(|n| !(n.starts_with('q') && n.len() == 2)).collect();
+    let ended_early = seen.len() < expected.len();
+    for (k, n) in seen.iter().enumerate() {
+        if k >= expected.len() || **n != expected[k] {
+            rep.oracle_fail("C03:external-order-or-multiplicity", json!({"origin": c.origin, "xml": c.xml, "events": c.events, "single": c.single, "consumed": consumed}));
+            return;
+        }
+    }
+    if ended_early {
+        // legitimate only if the session reached a top-level final state (then nothing is dequeued any more)
+        rep.count("sessions_ended_before_all_events");
+    }
+}
+
+// ------------------------------------------------------------------ tables parsed back from the dump
+
+#[derive(Default, Clone)]
+pub struct TState {
+    pub doc_id: u32,
+    pub name: String,
+    pub parent: u32,
+    pub kids: Vec<u32>,
+    pub parallel: bool,
+    pub is_final: bool,
+    pub hist: u32,
+    pub transitions: Vec<u32>,
+    pub onexit: Vec<u32>,
+    pub history: Vec<u32>,
+}
+
+#[derive(Default, Clone)]
+pub struct TTrans {
+    pub targets: Vec<u32>,
+    pub content: u32,
+}
+
+pub struct Tables {
+    pub root: u32,
+    pub states: HashMap<u32, TState>,
+    pub trans: HashMap<u32, TTrans>,
+}
+
+fn nat_list(s: &str) -> Vec<u32> {
+    if s == "." {
+        vec![]
+    } else {
+        s.split('/').filter_map(|x| x.parse().ok()).collect()
+    }
+}
+
+pub fn parse_tables(doc: &str) -> Tables {
+    let mut t = Tables { root: 0, states: HashMap::new(), trans: HashMap::new() };
+    for rec in doc.split('|') {
+        let f: Vec<&str> = rec.split(',').collect();
+        match f[0] {
+            "H" => t.root = f[1].parse().unwrap_or(0),
+            "S" => {
+                let id: u32 = f[1].parse().unwrap_or(0);
+                let name = crate::proto::unhex(f[3]).map(|b| String::from_utf8_lossy(&b).to_string()).unwrap_or_default();
+                t.states.insert(
+                    id,
+                    TState {
+                        doc_id: f[2].parse().unwrap_or(0),
+                        name,
+                        parent: f[4].parse().unwrap_or(0),
+                        kids: nat_list(f[5]),
+                        parallel: f[6] == "1",
+                        is_final: f[7] == "1",
+                        hist: f[8].parse().unwrap_or(0),
+                        transitions: nat_list(f[10]),
+                        onexit: nat_list(f[12]),
+                        history: nat_list(f[13]),
+                    },
+                );
+            }
+            "T" => {
+                let id: u32 = f[1].parse().unwrap_or(0);
+                t.trans.insert(id, TTrans { targets: nat_list(f[7]), content: f[9].parse().unwrap_or(0) });
+            }
+            _ => {}
+        }
+    }
+    t
+}
+
+impl Tables {
+    fn is_desc(&self, x: u32, anc: u32) -> bool {
+        let mut c = self.states.get(&x).map(|s| s.parent).unwrap_or(0);
+        let mut n = 0;
+        while c != 0 && n < 1000 {
+            if c == anc {
+                return true;
+            }
+            c = self.states.get(&c).map(|s| s.parent).unwrap_or(0);
+            n += 1;
+        }
+        false
+    }
+    fn in_final_state(&self, cfg: &[u32], s: u32) -> bool {
+        let st = match self.states.get(&s) {
+            Some(x) => x,
+            None => return false,
+        };
+        if st.parallel {
+            st.kids.iter().all(|k| self.in_final_state(cfg, *k))
+        } else if !st.kids.is_empty() && !st.is_final {
+            st.kids.iter().any(|k| self.states.get(k).map(|x| x.is_final).unwrap_or(false) && cfg.contains(k))
+        } else {
+            false
+        }
+    }
+}
+
+// ------------------------------------------------------------------ C06
+
+pub fn oracle_c06(c: &Case, imp: &ImplRun, rep: &mut Report) {
+    let tb = parse_tables(&imp.doc);
+    let mut cfg: Vec<u32> = vec![];
+    let mut hv: HashMap<u32, Vec<u32>> = HashMap::new();
+    let mut selected: Vec<u32> = vec![];
+    let mut cfg_before: Vec<u32> = vec![];
+    let mut exited: Vec<u32> = vec![];
+    let mut entered: Vec<u32> = vec![];
+    let mut contents: Vec<u32> = vec![];
+    let mut in_enter = false;
+    let fail = |rep: &mut Report, sig: &str, extra: serde_json::Value| {
+        rep.oracle_fail(sig, json!({"origin": c.origin, "xml": c.xml, "events": c.events, "single": c.single, "detail": extra}));
+    };
+    for l in &imp.out.trace {
+        if let Some(v) = l.strip_prefix("res enabledTransitions=") {
+            let inner = v.trim().trim_start_matches('[').trim_end_matches(']');
+            selected = inner.split(',').filter_map(|x| x.trim().parse().ok()).collect();
+        } else if l == "m> exitStates" {
+            cfg_before = cfg.clone();
+            exited.clear();
+        } else if let Some(n) = l.strip_prefix("exit ") {
+            let id: u32 = n.parse().unwrap_or(0);
+            cfg.retain(|x| *x != id);
+            exited.push(id);
+        } else if l == "m< exitStates" {
+            for x in &exited {
+                if let Some(st) = tb.states.get(x) {
+                    for h in &st.history {
+                        let deep = tb.states.get(h).map(|s| s.hist == 2).unwrap_or(false);
+                        let v: Vec<u32> = cfg_before
+                            .iter()
+                            .cloned()
+                            .filter(|s0| {
+                                if deep {
+                                    tb.states.get(s0).map(|s| s.kids.is_empty()).unwrap_or(false) && tb.is_desc(*s0, *x)
+                                } else {
+                                    tb.states.get(s0).map(|s| s.parent == *x).unwrap_or(false)
+                                }
+                            })
+                            .collect();
+                        hv.insert(*h, v);
+                        rep.count("history_values_recorded");
+                    }
+                }
+            }
+        } else if l == "m> enterStates" {
+            in_enter = true;
+            entered.clear();
+            contents.clear();
+        } else if let Some(n) = l.strip_prefix("enter ") {
+            let id: u32 = n.parse().unwrap_or(0);
+            cfg.push(id);
+            entered.push(id);
+        } else if let Some(n) = l.strip_prefix("arg contentId=") {
+            if in_enter {
+                contents.push(n.parse().unwrap_or(0));
+            }
+        } else if l == "m< enterStates" {
+            in_enter = false;
+            // history targets among the transitions just taken
+            let hist_targets: Vec<u32> = selected
+                .iter()
+                .filter_map(|t| tb.trans.get(t))
+                .flat_map(|t| t.targets.clone())
+                .filter(|x| tb.states.get(x).map(|s| s.hist != 0).unwrap_or(false))
+                .collect();
+            if hist_targets.len() == 1 {
+                let h = hist_targets[0];
+                let dt = tb.states.get(&h).and_then(|s| s.transitions.first()).and_then(|t| tb.trans.get(t)).cloned().unwrap_or_default();
+                match hv.get(&h) {
+                    Some(vs) => {
+                        rep.count("history_restores");
+                        for v in vs {
+                            if !entered.contains(v) {
+                                fail(rep, "C06:restore:recorded-state-not-entered", json!({"history": h, "recorded": vs, "entered": entered}));
+                            }
+                        }
+                        // the default targets that were not recorded must not come from the default transition
+                        if dt.content != 0 && contents.contains(&dt.content) {
+                            fail(rep, "C06:default-content-run-although-value-recorded", json!({"history": h, "content": dt.content}));
+                        }
+                    }
+                    None => {
+                        rep.count("history_defaults");
+                        for v in &dt.targets {
+                            if tb.states.get(v).map(|s| s.hist == 0).unwrap_or(false) && !entered.contains(v) {
+                                fail(rep, "C06:default:target-not-entered", json!({"history": h, "targets": dt.targets, "entered": entered}));
+                            }
+                        }
+                        if dt.content != 0 {
+                            // the default content runs as part of entering the history's parent in
+                            // this microstep — once if the parent is entered, not at all otherwise
+                            let parent = tb.states.get(&h).map(|s| s.parent).unwrap_or(0);
+                            let n = contents.iter().filter(|x| **x == dt.content).count();
+                            let want = if entered.contains(&parent) { 1 } else { 0 };
+                            if want == 1 {
+                                rep.count("history_default_content_runs");
+                            }
+                            if n != want {
+                                fail(rep, "C06:default-content-not-run-exactly-once", json!({"history": h, "content": dt.content, "times": n, "expected": want}));
+                            }
+                        }
+                    }
+                }
+            }
+            selected.clear();
+        }
+    }
+}
+
+// ------------------------------------------------------------------ C07
+
+pub fn oracle_c07(c: &Case, imp: &ImplRun, rep: &mut Report) {
+    let tb = parse_tables(&imp.doc);
+    let mut cfg: Vec<u32> = vec![];
+    let mut stopped = false; // top-level final entered or cancel received
+    let mut pending: Vec<String> = vec![]; // done.state events that must be raised before the next enter
+    let mut after_stop_contents: Vec<u32> = vec![];
+    let mut cfg_at_stop: Vec<u32> = vec![];
+    let fail = |rep: &mut Report, sig: &str, extra: serde_json::Value| {
+        rep.oracle_fail(sig, json!({"origin": c.origin, "xml": c.xml, "events": c.events, "single": c.single, "detail": extra}));
+    };
+    let mut flush = |pending: &mut Vec<String>, rep: &mut Report| {
+        if !pending.is_empty() {
+            fail(rep, "C07:done-state-event-missing", json!({"missing": pending.clone()}));
+            pending.clear();
+        }
+    };
+    let mut top_final_seen = false;
+    for l in &imp.out.trace {
+        if let Some(n) = l.strip_prefix("enter ") {
+            flush(&mut pending, rep);
+            let id: u32 = n.parse().unwrap_or(0);
+            cfg.push(id);
+            if let Some(st) = tb.states.get(&id) {
+                if st.is_final {
+                    if st.parent == tb.root {
+                        top_final_seen = true;
+                        rep.count("top_level_final_entered");
+                    } else {
+                        rep.count("final_child_entered");
+                        let p = st.parent;
+                        pending.push(format!("done.state.{}", tb.states.get(&p).map(|s| s.name.clone()).unwrap_or_default()));
+                        let gp = tb.states.get(&p).map(|s| s.parent).unwrap_or(0);
+                        if tb.states.get(&gp).map(|s| s.parallel).unwrap_or(false)
+                            && tb.states[&gp].kids.iter().all(|k| tb.in_final_state(&cfg, *k))
+                        {
+                            rep.count("parallel_done");
+                            pending.push(format!("done.state.{}", tb.states[&gp].name));
+                        }
+                    }
+                }
+            }
+        } else if let Some(n) = l.strip_prefix("exit ") {
+            let id: u32 = n.parse().unwrap_or(0);
+            cfg.retain(|x| *x != id);
+        } else if let Some(n) = l.strip_prefix("isend ") {
+            if pending.first().map(|p| p == n).unwrap_or(false) {
+                pending.remove(0);
+            } else {
+                fail(rep, "C07:unexpected-done-state-event", json!({"event": n, "expected": pending.clone()}));
+            }
+        } else if l == "m< enterStates" {
+            flush(&mut pending, rep);
+            if top_final_seen && !stopped {
+                stopped = true;
+                cfg_at_stop = cfg.clone();
+            }
+        } else if l.starts_with("ext ") || l.starts_with("int ") || l.starts_with("res enabledTransitions") {
+            if stopped {
+                fail(rep, "C07:event-processed-after-session-end", json!({"line": l}));
+            }
+            if l == "ext error.platform.cancel" {
+                stopped = true;
+                cfg_at_stop = cfg.clone();
+                rep.count("cancelled");
+            }
+        } else if let Some(n) = l.strip_prefix("arg contentId=") {
+            if stopped {
+                after_stop_contents.push(n.parse().unwrap_or(0));
+            }
+        }
+    }
+    if stopped {
+        // every active state's onexit blocks, once, in exit order (reverse document order)
+        let mut order = cfg_at_stop.clone();
+        order.sort_by(|a, b| tb.states[b].doc_id.cmp(&tb.states[a].doc_id));
+        let expected: Vec<u32> = order.iter().flat_map(|s| tb.states[s].onexit.clone()).collect();
+        if expected != after_stop_contents {
+            fail(rep, "C07:shutdown-onexit-order", json!({"expected": expected, "seen": after_stop_contents, "configuration": cfg_at_stop}));
+        }
+        // the final configuration is reported to the host
+        let reported: Option<Vec<u32>> = imp.out.final_configuration.as_ref().map(|v| v.iter().map(|n| *imp.names.get(n).unwrap_or(&0)).collect());
+        let mut a = cfg_at_stop.clone();
+        a.sort();
+        let mut b = reported.clone().unwrap_or_default();
+        b.sort();
+        if reported.is_none() || a != b {
+            fail(rep, "C07:final-configuration-report", json!({"expected": cfg_at_stop, "reported": reported}));
+        }
+    } else {
+        fail(rep, "C07:session-did-not-end", json!({}));
+    }
+}
+
 // ------------------------------------------------------------------ driver
 
 pub fn corpus(prop: &str) -> Vec<Case> {
@@ -473,6 +825,16 @@ pub fn run(args: &Args, model: &mut Model, prop: &str) -> Report {
     for c in &cases {
         let t_case = std::time::Instant::now();
         let out = correspond(c, model, &mut rep, prop);
+        if debug && args.replay.is_some() {
+            if let Some(i) = &out.imp {
+                for l in &i.out.trace {
+                    if !(l.starts_with("m> is") || l.starts_with("m< is") || l.starts_with("arg state") || l.starts_with("res result") || l.starts_with("m> getProper") || l.starts_with("m< getProper") || l.starts_with("res properAnc") || l.starts_with("res parallel") ) {
+                        eprintln!("TRACE {}", l);
+                    }
+                }
+                eprintln!("DOC {}", i.doc);
+            }
+        }
         if debug {
             eprintln!("case {} {:?} trace_lines={}", c.origin, t_case.elapsed(), out.imp.as_ref().map(|i| i.out.trace.len()).unwrap_or(0));
         }
@@ -492,6 +854,9 @@ pub fn run(args: &Args, model: &mut Model, prop: &str) -> Report {
             }
             match prop {
                 "C01" => oracle_c01(c, imp, model, &mut rep),
+                "C03" => oracle_c03(c, imp, &mut rep),
+                "C06" => oracle_c06(c, imp, &mut rep),
+                "C07" => oracle_c07(c, imp, &mut rep),
                 "C02" => {
                     oracle_c01(c, imp, model, &mut rep);
                     oracle_c02(c, imp, &out.idle_before, &mut rep)
